@@ -1003,10 +1003,12 @@ pub fn msg_exact(seq: u64, len: usize) -> String {
         s.truncate(len);
         return s;
     }
+    // (a full mixing step per character: long messages must not be highly repetitive, or
+    // compression never has to emit more than one block)
     let mut h = crate::rng::mix(seq ^ 0x51ED);
     while s.len() < len {
         s.push((b'a' + (h % 26) as u8) as char);
-        h = h.rotate_left(5).wrapping_add(0x9E37);
+        h = if len > 200 { crate::rng::mix(h) } else { h.rotate_left(5).wrapping_add(0x9E37) };
     }
     s
 }
